@@ -19,6 +19,9 @@ var truthValues = []lang.Value{
 	lang.Bool(true), lang.Bool(false), lang.Null(),
 	lang.Int(0), lang.Int(1), lang.Int(-1), lang.Int(2), lang.Int(12), lang.Int(13), lang.Int(24), lang.Int(268), lang.Int(269), lang.Int(65535), lang.Int(-9007199254740993),
 	lang.Float(0), lang.Float(0.5), lang.Float(-0.5), lang.Float(1e-7), lang.Float(3),
+	// not a number (neither positive nor anything else), and the infinities;
+	// these reach a script through fields, SetVariable, functions and float()
+	lang.Float(math.NaN()), lang.Float(math.Inf(1)), lang.Float(math.Inf(-1)),
 	lang.Str(""), lang.Str("a"), lang.Str(" "), lang.Str("0"), lang.Str("false"),
 	lang.Array(), lang.Array(lang.Int(0)), lang.Array(lang.Array()),
 	lang.Hash(), lang.Hash(lang.Pair{K: lang.Str("a"), V: lang.Int(0)}),
@@ -26,7 +29,7 @@ var truthValues = []lang.Value{
 }
 
 // truthProvenances: how the value reaches the truth-consuming position.
-var truthProvenances = []string{"literal", "assigned", "setvariable", "structfield", "mapfield", "builtin", "hostfunction"}
+var truthProvenances = []string{"literal", "assigned", "setvariable", "structfield", "mapfield", "builtin", "hostfunction", "absentname"}
 
 // builtinExprFor returns an expression made of built-in calls that
 // evaluates to a freshly allocated object equal to v (ok=false if none).
@@ -81,6 +84,12 @@ func truthOperand(c *Case, prelude *string, name string, v lang.Value, prov stri
 		}
 		c.Obj.Fields = append(c.Obj.Fields, eng.Field{Name: "F" + name, V: v})
 		return lang.Name{N: "F" + name}, true
+	case "absentname":
+		// null by absence: a name that is neither a variable nor a field
+		if v.K != lang.KNull {
+			return nil, false
+		}
+		return lang.Name{N: "Absent" + name}, true
 	case "builtin":
 		return builtinExprFor(v)
 	case "hostfunction":
@@ -93,7 +102,7 @@ func truthOperand(c *Case, prelude *string, name string, v lang.Value, prov stri
 	return nil, false
 }
 
-var truthPositions = []string{"if", "if-else", "if-empty-then", "if-empty-else", "elseif", "elseif-empty", "while", "ternary", "and-left", "and-right", "or-left", "or-right", "not", "not-not", "not-in-if", "not-in-ternary", "not-in-while", "notnot-in-if", "notnot-in-ternary", "notnot-in-while", "ternary-spells-truth", "not-ternary-spells-truth", "ifelse-spells-truth", "run"}
+var truthPositions = []string{"if", "if-else", "if-empty-then", "if-empty-else", "elseif", "elseif-empty", "while", "ternary", "and-left", "and-right", "or-left", "or-right", "not", "not-not", "not-in-if", "not-in-ternary", "not-in-while", "notnot-in-if", "notnot-in-ternary", "notnot-in-while", "ternary-spells-truth", "not-ternary-spells-truth", "ifelse-spells-truth", "if-ternary-spells-truth", "while-ternary-spells-truth", "ternary-number-compared", "ternary-number-in-if", "run"}
 
 func truthScript(pos string, e lang.Expr) (string, func(truth bool, v lang.Value) lang.Value, bool) {
 	x := lang.ExprText(lang.Paren{X: e})
@@ -210,6 +219,20 @@ func truthScript(pos string, e lang.Expr) (string, func(truth bool, v lang.Value
 		return `return ` + x + ` ? true : false;`, func(t bool, _ lang.Value) lang.Value { return lang.Bool(t) }, false
 	case "not-ternary-spells-truth":
 		return `return ! (` + x + ` ? true : false);`, func(t bool, _ lang.Value) lang.Value { return lang.Bool(!t) }, false
+	case "if-ternary-spells-truth":
+		// the truth idiom feeding a condition directly
+		return `if ( ` + x + ` ? true : false ) { return "T"; } return "F";`, pick, false
+	case "while-ternary-spells-truth":
+		return `n = 0; while ( ` + x + ` ? true : false ) { n = n + 1; if ( n >= 1 ) { return "T"; } } return "F";`, pick, false
+	case "ternary-number-compared":
+		return `return [(` + x + ` ? 1 : 0) == 1, (` + x + ` ? 1 : 0) != 1, (` + x + ` ? 2 : 3) + 4];`, func(t bool, _ lang.Value) lang.Value {
+			if t {
+				return lang.Array(lang.Bool(true), lang.Bool(false), lang.Int(6))
+			}
+			return lang.Array(lang.Bool(false), lang.Bool(true), lang.Int(7))
+		}, false
+	case "ternary-number-in-if":
+		return `if ( (` + x + ` ? 1 : 0) == 1 ) { return "T"; } else { return "F"; }`, pick, false
 	case "ifelse-spells-truth":
 		return `function truth(q) { if ( q ) { return true; } else { return false; } } return [truth(` + x + `), ! truth(` + x + `)];`, func(t bool, _ lang.Value) lang.Value {
 			return lang.Array(lang.Bool(t), lang.Bool(!t))
@@ -267,6 +290,19 @@ func TestC05Table(t *testing.T) {
 				c.Exp = Expect{Val: expect(v.Truth(), v)}
 				col.Class("position:" + pos)
 				col.Class("provenance:" + prov)
+				if prov == "absentname" {
+					// the name is absent now; what earlier runs saw must not matter:
+					// every history, with an empty object and with none
+					for _, h := range []string{"none", "twice", "nil-first", "same-address", "wider-object-first"} {
+						for _, mode := range []string{"map", "nil"} {
+							cc := *c
+							cc.Obj = &eng.ObjSpec{Mode: mode}
+							cc.History = h
+							run(&cc, true)
+						}
+					}
+					continue
+				}
 				run(c, !(prov == "literal" && v.K == lang.KBool))
 			}
 		}
